@@ -16,6 +16,13 @@ Everything here works from *outside* the code under test:
 * ``DataFile`` / ``DataFileFd`` - the wrapping file object for the data file being produced.
   ``DataFileFd`` exposes ``fileno`` (numpy ``tofile`` and ``copy_file_range`` go to the
   descriptor directly); ``DataFile`` hides it so that every byte passes through ``write``.
+* ``DeviceRaw`` - the raw (unbuffered) layer *below* CPython's own ``io.BufferedWriter`` /
+  ``io.BufferedRandom`` of the data file being produced.  Its ``write`` is the fault position
+  ``raw.write`` = "the device stops accepting bytes at the k-th write(2) and stays that way"
+  (ENOSPC / EFBIG / EIO / EDQUOT).  ``write()`` on the buffered object then still succeeds whenever
+  the bytes fit the buffer; the error surfaces wherever the real buffered layer flushes - the next
+  ``seek`` / ``tell`` / ``flush`` / ``truncate`` / ``close`` - and the buffered bytes never reach the
+  file, exactly as with a full disk.
 * ``ProbeTensorToFile`` / ``ProbeTensorBytes`` - independent ``TensorProtocol`` implementations
   whose ``tofile`` / ``tobytes`` / ``numpy`` are fault positions.
 """
@@ -25,6 +32,7 @@ from __future__ import annotations
 import builtins
 import contextlib
 import errno as _errno
+import io
 import itertools
 import os
 import shutil
@@ -93,6 +101,10 @@ class Plan:
         self.lock = threading.Lock()
         self.counts_at_fire: list[dict[str, int]] = []   # per fired fault: calls counted so far, by site
         self.on_fire = None                        # optional hook (recording runs under a first fault)
+        # set by the first fired ``raw.write`` fault: the exception spec every later write(2) on a data
+        # file being produced fails with (a full disk stays full)
+        self.device_failed: list | None = None
+        self.raw_refused = 0                       # write(2) calls refused after the device failed
 
     def hit(self, site: str) -> list | None:
         with self.lock:
@@ -209,6 +221,103 @@ class DataFile:
         return self._real.read(*args)
 
 
+class DeviceRaw(io.RawIOBase):
+    """The unbuffered layer of the data file being produced: delegates to a real ``io.FileIO`` and is
+    wrapped by a real ``io.BufferedWriter`` / ``io.BufferedRandom``, so *where* a refused write(2)
+    is reported (the write itself when the buffer overflows, otherwise the next seek / tell / flush /
+    truncate / close) and what happens to the buffered bytes (lost) is decided by CPython's io
+    module, not by the harness.
+
+    Fault position ``raw.write`` (k-th write(2) over all data-file objects of the save):
+    ``raise`` - refused, and so is every later one (``plan.device_failed``);
+    ``raise_after_half`` - a short write of half of the bytes, every later write(2) refused;
+    ``die_after_half`` - half of the bytes, then the process dies."""
+
+    def __init__(self, fileio, plan: Plan) -> None:
+        super().__init__()
+        self._f = fileio
+        self._plan = plan
+
+    @property
+    def name(self):
+        return self._f.name
+
+    @property
+    def mode(self):
+        return self._f.mode
+
+    def readable(self):
+        return self._f.readable()
+
+    def writable(self):
+        return self._f.writable()
+
+    def seekable(self):
+        return self._f.seekable()
+
+    def fileno(self):
+        return self._f.fileno()
+
+    def isatty(self):
+        return False
+
+    def seek(self, pos, whence=0):
+        return self._f.seek(pos, whence)
+
+    def tell(self):
+        return self._f.tell()
+
+    def truncate(self, size=None):
+        return self._f.truncate(size)
+
+    def readinto(self, b):
+        return self._f.readinto(b)
+
+    def write(self, b):
+        plan = self._plan
+        with plan.lock:
+            failed = plan.device_failed
+            if failed is not None:
+                plan.raw_refused += 1
+        if failed is not None:
+            raise make_exc(failed)
+        action = plan.hit("raw.write")
+        if action is not None:
+            how = action[0]
+            view = memoryview(b).cast("B")
+            if how in ("raise_after_half", "die_after_half") and len(view) > 1:
+                done = self._f.write(view[: len(view) // 2])
+                if how.startswith("die"):
+                    _die()
+                with plan.lock:
+                    plan.device_failed = list(action[1])
+                return done
+            if how.startswith("die"):
+                _die()
+            with plan.lock:
+                plan.device_failed = list(action[1])
+            raise make_exc(action[1])
+        return self._f.write(b)
+
+    def close(self):
+        if self.closed:
+            return
+        try:
+            super().close()
+        finally:
+            self._f.close()
+
+
+def open_data_file(real_open, plan: Plan, file, mode: str):
+    """``open(file, mode)`` for a binary write mode, with ``DeviceRaw`` between CPython's buffered
+    object and the descriptor."""
+    fileio = real_open(file, mode, buffering=0)
+    raw = DeviceRaw(fileio, plan)
+    if raw.readable():
+        return io.BufferedRandom(raw)
+    return io.BufferedWriter(raw)
+
+
 class DataFileFd(DataFile):
     """Same, but with ``fileno``: numpy ``ndarray.tofile`` and ``os.copy_file_range`` then write
     through the descriptor and bypass ``write``."""
@@ -294,10 +403,15 @@ def patched(plan: Plan, *, opaque: bool, external_data_module, core_module):
     def ext_open(file, mode="r", *a, **kw):
         action = plan.hit("open")
         _apply_simple(action)
-        f = real["open"](file, mode, *a, **kw)
         if _is_data_write_mode(mode):
+            if a or kw:
+                # options the harness does not model below the buffer: no raw.write positions (the
+                # floor on exc_fired|raw.write then makes the run inconclusive, never 'held')
+                f = real["open"](file, mode, *a, **kw)
+            else:
+                f = open_data_file(real["open"], plan, file, mode)
             return (DataFile if opaque else DataFileFd)(f, plan)
-        return f
+        return real["open"](file, mode, *a, **kw)
 
     def core_open(file, mode="r", *a, **kw):
         _apply_simple(plan.hit("core.open"))
